@@ -132,6 +132,117 @@ pub fn check_dml(kind: Kind, sys: &DSys, spec: &DSpec) -> Vec<Fail> {
     fails
 }
 
+/// every Value variant (all features) through several statement positions: `build` must hand back exactly the
+/// values that were given - same variant, same payload, in reading order (Debug equality, so NaN payloads count)
+fn value_passthrough(rep: &Report) -> u64 {
+    use crate::report::Violation;
+    fn a(s: &str) -> Alias {
+        Alias::new(s)
+    }
+    let pool = crate::props::c02::value_pool();
+    let mut n = 0u64;
+    for v in &pool {
+        let one: Value = 1i32.into();
+        let two: Value = 2i32.into();
+        let cases: Vec<(&str, Box<dyn Fn(Dialect) -> Values>, Vec<Value>)> = vec![
+            ("select-value", Box::new(|d| build_any_d(Query::select().expr(Expr::val(v.clone())), d)), vec![v.clone()]),
+            ("where-eq", Box::new(|d| build_any_d(Query::select().column(a("a")).from(a("t1")).and_where(Expr::col(a("s")).eq(Expr::val(v.clone()))), d)), vec![v.clone()]),
+            ("in-list", Box::new(|d| build_any_d(Query::select().column(a("a")).from(a("t1")).and_where(Expr::col(a("s")).is_in([v.clone(), v.clone()])), d)), vec![v.clone(), v.clone()]),
+            ("insert-value", Box::new(|d| build_any_d(Query::insert().into_table(a("t1")).columns([a("s"), a("a")]).values_panic([Expr::val(v.clone()).into(), 1.into()]), d)), vec![v.clone(), one.clone()]),
+            ("update-value", Box::new(|d| build_any_d(Query::update().table(a("t1")).value(a("s"), Expr::val(v.clone())).and_where(Expr::col(a("id")).eq(2)), d)), vec![v.clone(), two.clone()]),
+            ("case-then", Box::new(|d| build_any_d(Query::select().expr(CaseStatement::new().case(Expr::col(a("a")).gt(1), Expr::val(v.clone())).finally(Expr::val(v.clone()))).from(a("t1")), d)), vec![one.clone(), v.clone(), v.clone()]),
+            ("from-values", Box::new(|d| build_any_d(Query::select().column(Asterisk).from_values([(v.clone(), 1i32)], a("x")), d)), vec![v.clone(), one.clone()]),
+            ("between", Box::new(|d| build_any_d(Query::delete().from_table(a("t1")).and_where(Expr::col(a("s")).between(v.clone(), v.clone())), d)), vec![v.clone(), v.clone()]),
+        ];
+        for (pos, f, want) in &cases {
+            for d in DIALECTS {
+                n += 1;
+                let got = match catch(|| f(d)) {
+                    Ok(v) => v.0,
+                    Err(p) => {
+                        rep.raw_failures.inc();
+                        rep.violation(Violation { key: format!("value-passthrough|{}|{}|render-panic|{}", pos, d.name(), crate::props::c12::variant(v)), what: format!("{pos} with {:?}: build panicked: {p}", v), case: json!({"passthrough": pos, "dialect": d.name(), "value": format!("{:?}", v)}) });
+                        continue;
+                    }
+                };
+                if format!("{:?}", got) != format!("{:?}", want) {
+                    rep.raw_failures.inc();
+                    rep.violation(Violation { key: format!("value-passthrough|{}|{}|values-differ-from-given|{}", pos, d.name(), crate::props::c12::variant(v)), what: format!("{} {pos}: build returns {:?}, the values given in reading order are {:?}", d.name(), got, want), case: json!({"passthrough": pos, "dialect": d.name(), "value": format!("{:?}", v)}) });
+                }
+            }
+        }
+    }
+    n
+}
+
+/// templates with escaped marks (`??`) between positional marks on the `?` backends: every sequence of up to 5 items over
+/// { `?`, `??`, word }, with exactly as many and with one surplus value. `build` must return the given values in order,
+/// one per single mark, and the text must carry one mark per value plus one per escape.
+fn escaped_mark_templates(rep: &Report) -> u64 {
+    use crate::report::Violation;
+    let items = ["?", "??", "x"];
+    let mut n = 0u64;
+    let mut seqs: Vec<Vec<usize>> = vec![vec![]];
+    let mut frontier: Vec<Vec<usize>> = vec![vec![]];
+    for _ in 0..5 {
+        let mut next = vec![];
+        for s in &frontier {
+            for i in 0..3 {
+                let mut t = s.clone();
+                t.push(i);
+                next.push(t);
+            }
+        }
+        seqs.extend(next.iter().cloned());
+        frontier = next;
+    }
+    for seq in &seqs {
+        let template = seq.iter().map(|i| items[*i]).collect::<Vec<_>>().join(" + ");
+        let k = seq.iter().filter(|i| **i == 0).count();
+        let esc = seq.iter().filter(|i| **i == 1).count();
+        if k == 0 || esc == 0 {
+            continue;
+        }
+        for surplus in [0usize, 1] {
+            let vals: Vec<Value> = (0..k + surplus).map(|i| Value::BigInt(Some(8100 + i as i64))).collect();
+            for d in [Dialect::Mysql, Dialect::Sqlite] {
+                n += 1;
+                let q = Query::select().expr(Expr::cust_with_values(template.clone(), vals.clone())).to_owned();
+                let r = catch(|| match d {
+                    Dialect::Mysql => q.build(MysqlQueryBuilder),
+                    _ => q.build(SqliteQueryBuilder),
+                });
+                let key = |sig: &str| format!("escaped-mark-template|{}|{sig}|{}", d.name(), if seq.iter().position(|i| *i == 1) < seq.iter().position(|i| *i == 0) { "escape-before-mark" } else { "escape-after-mark" });
+                let case = json!({"template": template, "dialect": d.name(), "values": k + surplus});
+                match r {
+                    Err(p) => {
+                        rep.raw_failures.inc();
+                        rep.violation(Violation { key: key("build-panic"), what: format!("{}: cust_with_values({template:?}, {} values) panicked in build: {p}", d.name(), vals.len()), case });
+                    }
+                    Ok((sql, got)) => {
+                        let marks = lex(d, &sql).map(|t| t.iter().filter(|t| matches!(t.tok, Tok::Param(_))).count()).unwrap_or(usize::MAX);
+                        let want: Vec<String> = vals.iter().take(k).map(value_canon).collect();
+                        let gotc: Vec<String> = got.0.iter().map(value_canon).collect();
+                        if gotc != want || marks != k + esc {
+                            rep.raw_failures.inc();
+                            rep.violation(Violation { key: key("values-or-marks-differ"), what: format!("{}: template {template:?} with values {:?} builds {sql:?} ({} marks, expected {}) returning {:?}, expected {:?}", d.name(), vals.iter().map(value_canon).collect::<Vec<_>>(), marks, k + esc, gotc, want), case });
+                        }
+                    }
+                }
+            }
+        }
+    }
+    n
+}
+
+fn build_any_d<S: QueryStatementWriter>(s: &S, d: Dialect) -> Values {
+    match d {
+        Dialect::Mysql => s.build(MysqlQueryBuilder).1,
+        Dialect::Postgres => s.build(PostgresQueryBuilder).1,
+        Dialect::Sqlite => s.build(SqliteQueryBuilder).1,
+    }
+}
+
 pub fn run(rep: &Arc<Report>) {
     let (ds, dd) = if rep.thorough() { (5, 5) } else { (4, 4) };
     let m = SelModel { name: "select", menu: select_menu(rep.thorough(), false), checks: vec![Box::new(check_select)], sqlite_only: false };
@@ -148,6 +259,10 @@ pub fn run(rep: &Arc<Report>) {
         outcomes += s2.outcomes;
         exhaustive &= s2.exhaustive;
     }
+    let vp = value_passthrough(rep);
+    rep.set("value_passthrough_cases", json!(vp));
+    let et = escaped_mark_templates(rep);
+    rep.set("escaped_mark_template_cases", json!(et));
     rep.set("states", json!(states));
     rep.set("transitions", json!(transitions));
     rep.set("max_depth", json!({"select": ds, "dml": dd}));
@@ -173,6 +288,16 @@ pub fn run(rep: &Arc<Report>) {
 }
 
 pub fn replay(case: &serde_json::Value) -> Option<String> {
+    if case["template"].is_string() {
+        let rep = Report::new("C01", "quick");
+        escaped_mark_templates(&rep);
+        return rep.find_violation(&format!("escaped-mark-template|{}|", case["dialect"].as_str().unwrap_or("")));
+    }
+    if let Some(pos) = case["passthrough"].as_str() {
+        let rep = Report::new("C01", "quick");
+        value_passthrough(&rep);
+        return rep.find_violation(&format!("value-passthrough|{}|{}|", pos, case["dialect"].as_str().unwrap_or(""))).filter(|_| true);
+    }
     let ops: Vec<String> = case["ops"].as_array().map(|a| a.iter().filter_map(|x| x.as_str().map(String::from)).collect()).unwrap_or_default();
     match case["model"].as_str().unwrap_or("") {
         "select" => replay_ops(&SelModel { name: "select", menu: select_menu(true, false), checks: vec![Box::new(check_select)], sqlite_only: false }, &ops),
